@@ -418,6 +418,31 @@ impl PathRouter {
                 .or_insert_with(|| LeafRouter::new(fallback_id));
         }
 
+        // The generated router registers these paths in this very order (the map is sorted).
+        // `matchit`'s conflict detection depends on the insertion order: a set of paths that
+        // was accepted in registration order can still be refused in this one, which would
+        // crash the generated server at startup. Check the actual sequence, here and now.
+        {
+            let mut startup_router = matchit::Router::new();
+            let mut errored = false;
+            for (path, leaf) in &path2method_router {
+                let Err(e) = startup_router.insert(path.clone(), ()) else {
+                    continue;
+                };
+                let id = leaf
+                    .handler_id2methods
+                    .keys()
+                    .next()
+                    .copied()
+                    .unwrap_or(leaf.fallback_id);
+                errored = true;
+                push_matchit_diagnostic(aux, path, id, e, diagnostics);
+            }
+            if errored {
+                return Err(());
+            }
+        }
+
         Ok(Self {
             root_fallback_id,
             path2method_router,
